@@ -426,8 +426,6 @@ def affine_q(ctx, rng, mixed=False):
             q.append(simple_q(ctx, rng)[0])
         if rng.random() < 0.3:
             q.reverse()
-    for item in q:
-        item[2] = item[2] if item in q[:1] or len(item) == 3 else item[2]
     if len({c for c, _u, _e in q}) != len(q) or len({ctx.db.GetCategoryQuantityType(c) for c, _u, _e in q}) != len(q) - (1 if mixed and len(ctx.cats[qt]) > 1 else 0):
         return affine_q(ctx, rng, mixed)
     return q
